@@ -590,9 +590,33 @@ pub fn random_doc(rng: &mut Rng, s: &ASchema, k: &OpKnobs) -> ADoc {
                 }
             }
         }
-        for (ty, idxs) in by_type {
+        fn add_twin(sels: &mut Vec<ASel>, of: &str, twin: &str) {
+            let mut i = 0;
+            while i < sels.len() {
+                match &mut sels[i] {
+                    ASel::Field { sub, .. } | ASel::Inline { sub, .. } => add_twin(sub, of, twin),
+                    ASel::Spread { name } if name == of => {
+                        sels.insert(i + 1, ASel::Spread { name: twin.to_string() });
+                        i += 1;
+                    }
+                    _ => {}
+                }
+                i += 1;
+            }
+        }
+        for (ty, mut idxs) in by_type {
             if idxs.len() < 2 {
-                continue;
+                // a twin of the only fragment: it selects nothing but the base, and is spread wherever the fragment is
+                let of = frags[idxs[0]].name.clone();
+                let twin = format!("{}Twin", of);
+                for op in ops.iter_mut() {
+                    add_twin(&mut op.sels, &of, &twin);
+                }
+                for f in frags.iter_mut() {
+                    add_twin(&mut f.sels, &of, &twin);
+                }
+                frags.push(AFrag { name: twin, on: ty.clone(), sels: vec![ASel::Typename] });
+                idxs.push(frags.len() - 1);
             }
             let base = format!("{}TypenameBase", ty);
             for i in &idxs {
